@@ -667,7 +667,13 @@ def _inner_ss(kind, val, ran):
 
 def _cases_adupdates(cfg):
     blocks = cfg['blocks']
-    Ls = [_op(b['L']) for b in blocks]
+    if cfg.get('sameobj'):
+        # ONE operator object in several positions of L (a user who builds A once and uses it in
+        # two terms): the dual variables are per position, not per operator
+        made = {}
+        Ls = [made.setdefault(b['L'], _op(b['L'])) for b in blocks]
+    else:
+        Ls = [_op(b['L']) for b in blocks]
     gs = [_func(b['g'], L.range) for b, L in zip(blocks, Ls)]
     dom = Ls[0].domain
     files = (M_adu.__file__,)
@@ -1156,6 +1162,14 @@ def configs(tier):
             blocks=[{'L': L, 'g': g, 'ss': 'scalar'} for L, g in zip(tri, gg)])
         add(1, solver='adupdates',
             blocks=[{'L': L, 'g': g, 'ss': 'scalar'} for L, g in zip(tri, gg)])
+        if len(set(tri)) < len(tri):
+            add(1, solver='adupdates', sameobj=1,
+                blocks=[{'L': L, 'g': g, 'ss': 'scalar'} for L, g in zip(tri, gg)])
+            add(1, solver='adupdates', sameobj=1, random=True,
+                blocks=[{'L': L, 'g': g, 'ss': 'scalar'} for L, g in zip(tri, gg)])
+    for L, g1, g2 in (('I3', 'L1', 'L2sqt'), ('M23', 'KL', 'L1'), ('G4', 'GL1', 'L2sqt')):
+        add(1, solver='adupdates', sameobj=1,
+            blocks=[{'L': L, 'g': g1, 'ss': 'scalar'}, {'L': L, 'g': g2, 'ss': 'scalar'}])
     # (a) double-proximal d.c.
     for L in ops + sq:
         for phi in SMOOTH:
@@ -1215,7 +1229,9 @@ def _site(cfg):
     if s == 'adupdates':
         return 'adupdates[%s%s]' % (';'.join('g=%s,inner_stepsizes=%s' % (b['g'], b['ss'])
                                              for b in cfg['blocks']),
-                                    ';random' if cfg.get('random') else '')
+                                    (';random' if cfg.get('random') else '')
+                                    + (';one operator object in several positions'
+                                       if cfg.get('sameobj') else ''))
     if s == 'pdhg':
         return 'pdhg[f=%s,g=%s%s]' % (cfg['f'], cfg['g'],
                                       ',gamma_%s' % cfg['acc'] if cfg.get('acc') else '')
